@@ -214,7 +214,14 @@ pub enum Op {
     InReqSigner(KeyId),
     /// a key-owned UTxO first added by mistake as a Plutus-script input (the entry point does not
     /// look at the address), then added again correctly as a regular input: the second call replaces the first
-    InScriptThenRegular { utxo: usize, wit: Wit },
+    InScriptThenRegular {
+        utxo: usize,
+        wit: Wit,
+        /// the mistaken attempt goes through `add_plutus_script_utxo`, which looks at the address and has to
+        /// refuse a key-owned UTxO (F4); only then does the wallet fall back to the regular entry point
+        #[serde(default)]
+        checked: bool,
+    },
     /// add directly on the TransactionBuilder (deprecated pass-through; usable after a selection)
     InDirect(usize),
     // ---- collateral
